@@ -117,6 +117,14 @@ def cases(rng, tier, stats):
             nt += len(lines)
             out.append(C.Case("deep-truncations", lines, C.compare_status_class, total_oracle, info={"src": G.render(toks, "oneline")[:300]}))
     stats["deep_truncations"] = nt
+    # hand-written malformed statements, one per syntax-error site of the parser that random mutation reaches rarely
+    bad = ['মডিউল = "x.pakhi";', 'মডিউল ক "x.pakhi";', 'মডিউল ক = ;', 'মডিউল ক = ৫;', 'মডিউল ক = "x.pakhi"', 'দেখাও ক[০ ;', 'দেখাও ক[০ ১];', 'ক[০ = ১;', 'ক[০][ = ১;',
+           'দেখাও @{"k" -> ১ ;', 'দেখাও @{"k" ১};', 'দেখাও @{"k" -> };', 'দেখাও @ ৫;', 'দেখাও @{"k" -> ১ "j" -> ২ ;', 'দেখাও [১, ২ ;', 'দেখাও (১ + ২ ;', 'দেখাও ফ(১, ;',
+           'নাম = ৫;', 'নাম ক ৫;', 'নাম ৫ = ৫;', 'নাম ক = ;', 'ক = ;', 'ক ৫;', 'ফাং ;', 'ফেরত', 'থামাও', 'আবার', 'যদি {', 'যদি সত্য', 'লুপ', '} ;', '@', '-> ৫;', ', ;', '= ৫;',
+           'দেখাও', '_দেখাও', 'দেখাও ৫', 'দেখাও ৫ ৬;', 'দেখাও + ;', 'দেখাও ! ;', 'দেখাও - ;', 'দেখাও ১ + ;', 'দেখাও ১ == ;', 'দেখাও ক[];', 'দেখাও ক[][০];']
+    lines = ["PARSE " + C.hx(b) for b in bad] + ["PARSE " + C.hx('দেখাও "আগে";\n' + b + '\nদেখাও "পরে";') for b in bad]
+    out.append(C.Case("malformed-statements", lines, C.compare_status_class, total_oracle, info={"count": len(lines)}))
+    stats["malformed_statements"] = len(lines)
     return out
 
 
